@@ -92,9 +92,12 @@ VARIABLES
     rq,        \* rq[t]: the request thread t is serving, and its stickySink / stickyCleanup
     op,        \* operator: [pc, w]
     cnt,       \* budgets used: [req, ops, reaps]
+    how,       \* how[s]: the way session s ended ("-" while it has not).  Bookkeeping for the class
+               \* signature of generated schedules only (constant in Mode "mc" / "trace"): a request
+               \* that resolved the entry before it ended, and locks it afterwards, is a class per way
     hist
 
-vars == <<reg, sinfo, closed, lock, pending, draining, down, now, pc, rq, op, cnt, hist>>
+vars == <<reg, sinfo, closed, lock, pending, draining, down, now, pc, rq, op, cnt, how, hist>>
 
 NoReq == [kind |-> "-", route |-> "-", s |-> 0, prin |-> "-", w |-> "-", tok |-> "-", ops |-> <<>>, ttl |-> 0,
           accept |-> FALSE,
@@ -137,16 +140,33 @@ HPcs == {"inh", "hclosing", "sealing", "rollback"}
 --------------------------------------------------------------------------
 (* Observation: what the harness can see of the real system after a step. *)
 \* closed: Close() calls per state object; live: entry still in the registry map; inh: requests
-\* inside user code per session they bear; locked: live entries whose lock is held (not reported
-\* while a goroutine is blocked in Lock(): the hand-over is not observable step by step).
+\* inside user code per session they bear; locked: entries whose lock is held — also entries that
+\* have left the map, the mutex lives on the entry object (not reported while a goroutine is
+\* blocked in Lock(): the hand-over is not observable step by step); stuck: requests that can never
+\* complete — none, ever: every lock holder is a running request (LockHolderSane) that can finish
+\* and then releases it (NoLockLeak), which is what the harness probes by letting everything in
+\* flight run to completion after the last step of a schedule.
 Proj(cl, rg, pcs, rqs, lk) ==
     [closed |-> [s \in Sess |-> cl[s]],
      live   |-> [s \in Sess |-> rg[s].in],
-     inh    |-> [s \in Sess |-> {t \in Thr : pcs[t] \in HPcs /\ (rqs[t].lk = s \/ rqs[t].minted = s)}]]
+     inh    |-> [s \in Sess |-> {t \in Thr : pcs[t] \in HPcs /\ (rqs[t].lk = s \/ rqs[t].minted = s)}],
+     stuck  |-> {}]
     @@ (IF \E t \in Thr : pcs[t] = "lockwait" THEN <<>>
-        ELSE [locked |-> {s \in Sess : rg[s].in /\ lk[s] # 0}])
+        ELSE [locked |-> {s \in Sess : lk[s] # 0}])
+
+Tracked == Mode \notin {"mc", "trace"}
+EndedAs(a) == CASE a = "Get_ExpiredEvict" -> "expiry-inline"
+                [] a = "H_Close_Hit" -> "close"
+                [] a = "Del_Close_Hit" -> "delete"
+                [] a = "Seal_Fail_Hit" -> "rollback"
+                [] a = "Reap" -> "expiry-reaper"
+                [] a = "Shutdown_Remove" -> "shutdown"
+                [] OTHER -> "?"
 
 Record(step, sig) ==
+    /\ how' = IF Tracked
+              THEN [s \in Sess |-> IF reg[s].in /\ ~reg'[s].in THEN EndedAs(step.a) ELSE how[s]]
+              ELSE how
     /\ hist' = CASE Mode = "trace" -> hist
                  [] Mode = "mc"    -> hist
                  [] OTHER          -> Append(hist, step)
@@ -170,8 +190,10 @@ SessClass(s) ==
     ELSE IF pending[s] # 0 THEN "closing" ELSE "gone"
 
 AbsState ==
-    << [s \in Sess |-> <<SessClass(s), lock[s] # 0, sinfo[s].pub>>],
-       [t \in Thr |-> <<pc[t], rq[t].kind, rq[t].ops, rq[t].bound # 0, rq[t].sclosed>>],
+    << [s \in Sess |-> <<SessClass(s), lock[s] # 0, sinfo[s].pub,
+                          IF \E t \in Thr : pc[t] \in {"prelock", "lockwait"} /\ rq[t].ent = s
+                          THEN how[s] ELSE "-">>],
+       [t \in Thr |-> <<pc[t], rq[t].kind, rq[t].route, rq[t].ops, rq[t].bound # 0, rq[t].sclosed>>],
        op.pc, {s \in Sess : pending[s] = RP} # {} >>
 
 SigArgs(args) ==
@@ -617,6 +639,7 @@ Init ==
     /\ rq = [t \in Thr |-> NoReq]
     /\ op = [pc |-> "idle", w |-> "-"]
     /\ cnt = [req |-> 0, ops |-> 0, reaps |-> 0]
+    /\ how = [s \in Sess |-> "-"]
     /\ (Mode = "classes") => TLCSet(1, {})
     /\ hist = << [a |-> "Init", t |-> 0,
                   args |-> [NSess |-> NSess, NThr |-> NThr, Prin |-> Prin, Worker |-> Worker,
@@ -720,5 +743,5 @@ TypeOK ==
 NoHandlerOnClosedSession ==
     \A t \in Thr : (pc[t] = "inh" /\ rq[t].lk # 0 /\ ~rq[t].sclosed) => closed[rq[t].lk] = 0
 
-View == <<reg, sinfo, closed, lock, pending, draining, down, now, pc, rq, op, cnt>>
+View == <<reg, sinfo, closed, lock, pending, draining, down, now, pc, rq, op, cnt, how>>
 =============================================================================
